@@ -65,6 +65,7 @@ type Term struct {
 }
 
 type TermTable struct {
+	hints map[int][2]int64 // signed range hints for symbols (from vrt.Range)
 	tab   map[string]*Term
 	all   []*Term
 	syms  map[string]*Term
@@ -73,7 +74,7 @@ type TermTable struct {
 }
 
 func NewTermTable() *TermTable {
-	tt := &TermTable{tab: map[string]*Term{}, syms: map[string]*Term{}}
+	tt := &TermTable{tab: map[string]*Term{}, syms: map[string]*Term{}, hints: map[int][2]int64{}}
 	tt.True = tt.mk(OpConst, 0, 1, "", nil)
 	tt.False = tt.mk(OpConst, 0, 0, "", nil)
 	return tt
@@ -303,7 +304,7 @@ func (tt *TermTable) eqIteConst(a, k *Term, depth int) *Term {
 }
 
 // ubound returns a conservative upper bound of t as an unsigned number.
-func ubound(t *Term, depth int) uint64 {
+func (tt *TermTable) ubound(t *Term, depth int) uint64 {
 	m := mask(t.w)
 	if depth > 12 {
 		return m
@@ -311,39 +312,51 @@ func ubound(t *Term, depth int) uint64 {
 	switch t.op {
 	case OpConst:
 		return t.cv
+	case OpSym:
+		if h, ok := tt.hints[t.id]; ok && h[0] >= 0 {
+			return min(uint64(h[1]), m)
+		}
 	case OpZExt:
-		return ubound(t.args[0], depth+1)
+		return tt.ubound(t.args[0], depth+1)
+	case OpSExt:
+		a := t.args[0]
+		if u := tt.ubound(a, depth+1); u <= mask(a.w)>>1 {
+			return u
+		}
 	case OpExtract:
-		return min(ubound(t.args[0], depth+1), m)
+		if u := tt.ubound(t.args[0], depth+1); u <= m {
+			return u
+		}
+		return m
 	case OpLShr:
 		if t.args[1].IsConst() {
 			if t.args[1].cv >= 64 {
 				return 0
 			}
-			return ubound(t.args[0], depth+1) >> t.args[1].cv
+			return tt.ubound(t.args[0], depth+1) >> t.args[1].cv
 		}
-		return ubound(t.args[0], depth+1)
+		return tt.ubound(t.args[0], depth+1)
 	case OpBvAnd:
-		return min(ubound(t.args[0], depth+1), ubound(t.args[1], depth+1))
+		return min(tt.ubound(t.args[0], depth+1), tt.ubound(t.args[1], depth+1))
 	case OpURem:
 		if t.args[1].IsConst() && t.args[1].cv > 0 {
-			return min(t.args[1].cv-1, ubound(t.args[0], depth+1))
+			return min(t.args[1].cv-1, tt.ubound(t.args[0], depth+1))
 		}
-		return ubound(t.args[0], depth+1)
+		return tt.ubound(t.args[0], depth+1)
 	case OpUDiv:
 		if t.args[1].IsConst() && t.args[1].cv > 0 {
-			return ubound(t.args[0], depth+1) / t.args[1].cv
+			return tt.ubound(t.args[0], depth+1) / t.args[1].cv
 		}
-		return ubound(t.args[0], depth+1)
+		return tt.ubound(t.args[0], depth+1)
 	case OpIte:
-		return max(ubound(t.args[1], depth+1), ubound(t.args[2], depth+1))
+		return max(tt.ubound(t.args[1], depth+1), tt.ubound(t.args[2], depth+1))
 	case OpAdd:
-		a, b := ubound(t.args[0], depth+1), ubound(t.args[1], depth+1)
+		a, b := tt.ubound(t.args[0], depth+1), tt.ubound(t.args[1], depth+1)
 		if a+b >= a && a+b <= m {
 			return a + b
 		}
 	case OpBvOr, OpBvXor:
-		a, b := ubound(t.args[0], depth+1), ubound(t.args[1], depth+1)
+		a, b := tt.ubound(t.args[0], depth+1), tt.ubound(t.args[1], depth+1)
 		x := max(a, b)
 		// next power of two minus one
 		for i := uint(1); i < 64; i <<= 1 {
@@ -352,13 +365,13 @@ func ubound(t *Term, depth int) uint64 {
 		return min(x, m)
 	case OpShl:
 		if t.args[1].IsConst() && t.args[1].cv < 64 {
-			a := ubound(t.args[0], depth+1)
+			a := tt.ubound(t.args[0], depth+1)
 			if r := a << t.args[1].cv; r>>t.args[1].cv == a && r <= m {
 				return r
 			}
 		}
 	case OpMul:
-		a, b := ubound(t.args[0], depth+1), ubound(t.args[1], depth+1)
+		a, b := tt.ubound(t.args[0], depth+1), tt.ubound(t.args[1], depth+1)
 		if a == 0 || b == 0 {
 			return 0
 		}
@@ -369,12 +382,116 @@ func ubound(t *Term, depth int) uint64 {
 	return m
 }
 
+// rng returns a conservative signed range of a 64-bit (or narrower) term.
+func (tt *TermTable) rng(t *Term, depth int) (lo, hi int64, ok bool) {
+	if depth > 16 || t.w == 0 {
+		return 0, 0, false
+	}
+	switch t.op {
+	case OpConst:
+		return t.SVal(), t.SVal(), true
+	case OpSym:
+		if h, ok := tt.hints[t.id]; ok {
+			return h[0], h[1], true
+		}
+	case OpZExt:
+		u := tt.ubound(t.args[0], 0)
+		if u <= 1<<62 {
+			return 0, int64(u), true
+		}
+	case OpSExt:
+		return tt.rng(t.args[0], depth+1)
+	case OpAdd:
+		la, ha, oka := tt.rng(t.args[0], depth+1)
+		lb, hb, okb := tt.rng(t.args[1], depth+1)
+		if oka && okb {
+			lo, hi := la+lb, ha+hb
+			lim := int64(1) << (min(uint(t.w), 63) - 1)
+			if t.w == 64 {
+				lim = 1 << 62
+			}
+			if lo >= -lim && hi < lim && la > -(1<<61) && ha < 1<<61 && lb > -(1<<61) && hb < 1<<61 {
+				return lo, hi, true
+			}
+		}
+	case OpSub:
+		la, ha, oka := tt.rng(t.args[0], depth+1)
+		lb, hb, okb := tt.rng(t.args[1], depth+1)
+		if oka && okb && la > -(1<<61) && ha < 1<<61 && lb > -(1<<61) && hb < 1<<61 && t.w == 64 {
+			return la - hb, ha - lb, true
+		}
+	case OpNeg:
+		la, ha, oka := tt.rng(t.args[0], depth+1)
+		if oka && la > -(1<<61) && t.w == 64 {
+			return -ha, -la, true
+		}
+	case OpIte:
+		la, ha, oka := tt.rng(t.args[1], depth+1)
+		lb, hb, okb := tt.rng(t.args[2], depth+1)
+		if oka && okb {
+			return min(la, lb), max(ha, hb), true
+		}
+	case OpMul:
+		if t.args[1].IsConst() && t.w == 64 {
+			c := t.args[1].SVal()
+			la, ha, oka := tt.rng(t.args[0], depth+1)
+			if oka && c > 0 && c < 1<<31 && la > -(1<<31) && ha < 1<<31 {
+				return la * c, ha * c, true
+			}
+		}
+	case OpSDiv:
+		if t.args[1].IsConst() && t.args[1].SVal() > 0 {
+			c := t.args[1].SVal()
+			la, ha, oka := tt.rng(t.args[0], depth+1)
+			if oka {
+				return la / c, ha / c, true
+			}
+		}
+	case OpSRem:
+		if t.args[1].IsConst() && t.args[1].SVal() > 0 {
+			c := t.args[1].SVal()
+			return -(c - 1), c - 1, true
+		}
+	case OpExtract:
+		la, ha, oka := tt.rng(t.args[0], depth+1)
+		lim := int64(1) << (uint(t.w) - 1)
+		if oka && la >= -lim && ha < lim {
+			return la, ha, true
+		}
+	}
+	if u := tt.ubound(t, 0); u <= mask(t.w)>>1 && u <= 1<<62 {
+		return 0, int64(u), true
+	}
+	return 0, 0, false
+}
+
 func (tt *TermTable) Cmp(op Op, a, b *Term) *Term {
 	if a.w != b.w {
 		panic(fmt.Sprintf("cmp width mismatch %d %d", a.w, b.w))
 	}
+	if (op == OpSlt || op == OpSle) && (!a.IsConst() || !b.IsConst()) {
+		la, ha, oka := tt.rng(a, 0)
+		lb, hb, okb := tt.rng(b, 0)
+		if oka && okb {
+			if op == OpSlt {
+				if ha < lb {
+					return tt.True
+				}
+				if la >= hb {
+					return tt.False
+				}
+			} else {
+				if ha <= lb {
+					return tt.True
+				}
+				if la > hb {
+					return tt.False
+				}
+			}
+		}
+	}
 	if !a.IsConst() || !b.IsConst() {
-		ua, ub := ubound(a, 0), ubound(b, 0)
+		ua, ub := tt.ubound(a, 0), tt.ubound(b, 0)
 		half := mask(a.w) >> 1
 		if (op == OpSlt || op == OpSle) && ua <= half && ub <= half {
 			// both non-negative: same as unsigned
@@ -549,6 +666,24 @@ func (tt *TermTable) Bin(op Op, a, b *Term) *Term {
 			return tt.Const(w, v)
 		}
 	}
+	if b.IsConst() && a.op == OpIte && a.args[1].IsConst() && a.args[2].IsConst() && !(b.cv == 0 && (op == OpSDiv || op == OpSRem)) {
+		return tt.Ite(a.args[0], tt.Bin(op, a.args[1], b), tt.Bin(op, a.args[2], b))
+	}
+	if a.IsConst() && b.op == OpIte && b.args[1].IsConst() && b.args[2].IsConst() && op != OpSDiv && op != OpSRem && op != OpUDiv && op != OpURem {
+		return tt.Ite(b.args[0], tt.Bin(op, a, b.args[1]), tt.Bin(op, a, b.args[2]))
+	}
+	if (op == OpSDiv || op == OpSRem) && b.IsConst() && b.SVal() > 0 && w == 64 {
+		if lo, hi, ok := tt.rng(a, 0); ok {
+			c := b.SVal()
+			if lo/c == hi/c {
+				q := tt.Const(w, uint64(lo/c))
+				if op == OpSDiv {
+					return q
+				}
+				return tt.Bin(OpSub, a, tt.Const(w, uint64((lo/c)*c)))
+			}
+		}
+	}
 	switch op {
 	case OpAdd:
 		if a.IsConst() && a.cv == 0 {
@@ -614,6 +749,19 @@ func (tt *TermTable) Bin(op Op, a, b *Term) *Term {
 			// zext(x) & m where m covers x's width
 			if a.op == OpZExt && b.cv&mask(a.args[0].w) == mask(a.args[0].w) {
 				return a
+			}
+			if u := tt.ubound(a, 0); u < mask(w) {
+				// bits above the bound are zero
+				hb := uint64(1)
+				for hb <= u && hb != 0 {
+					hb <<= 1
+				}
+				if hb != 0 && b.cv&(hb-1) == 0 {
+					return tt.Const(w, 0)
+				}
+				if hb != 0 && b.cv&(hb-1) == hb-1 {
+					return a
+				}
 			}
 		}
 		if a == b {
@@ -831,4 +979,113 @@ func collectSyms(ts []*Term) []*Term {
 		walk(t)
 	}
 	return out
+}
+
+// Eval computes the value of t under an assignment of the symbols (missing symbols = 0).
+func (tt *TermTable) Eval(t *Term, model map[string]uint64, memo map[int]uint64) uint64 {
+	if t.op == OpConst {
+		return t.cv
+	}
+	if v, ok := memo[t.id]; ok {
+		return v
+	}
+	var r uint64
+	ev := func(i int) uint64 { return tt.Eval(t.args[i], model, memo) }
+	sx := func(v uint64, w uint8) int64 {
+		if w >= 64 {
+			return int64(v)
+		}
+		sh := 64 - uint(w)
+		return int64(v<<sh) >> sh
+	}
+	switch t.op {
+	case OpSym:
+		r = model[t.name] & mask(t.w)
+	case OpNot:
+		r = 1 - ev(0)
+	case OpAnd:
+		r = ev(0) & ev(1)
+	case OpOr:
+		r = ev(0) | ev(1)
+	case OpIte:
+		if ev(0) == 1 {
+			r = ev(1)
+		} else {
+			r = ev(2)
+		}
+	case OpEq:
+		if ev(0) == ev(1) {
+			r = 1
+		}
+	case OpUlt:
+		if ev(0) < ev(1) {
+			r = 1
+		}
+	case OpUle:
+		if ev(0) <= ev(1) {
+			r = 1
+		}
+	case OpSlt:
+		if sx(ev(0), t.args[0].w) < sx(ev(1), t.args[0].w) {
+			r = 1
+		}
+	case OpSle:
+		if sx(ev(0), t.args[0].w) <= sx(ev(1), t.args[0].w) {
+			r = 1
+		}
+	case OpBvNot:
+		r = ^ev(0) & mask(t.w)
+	case OpNeg:
+		r = -ev(0) & mask(t.w)
+	case OpZExt:
+		r = ev(0)
+	case OpSExt:
+		r = uint64(sx(ev(0), t.args[0].w)) & mask(t.w)
+	case OpExtract:
+		r = ev(0) & mask(t.w)
+	case OpSDiv, OpSRem:
+		x, y := ev(0), ev(1)
+		if y == 0 {
+			// SMT-LIB semantics
+			if t.op == OpSRem {
+				r = x
+			} else if sx(x, t.w) < 0 {
+				r = 1
+			} else {
+				r = mask(t.w)
+			}
+		} else {
+			r, _ = foldBin(t.op, t.w, x, y)
+		}
+	default:
+		r, _ = foldBin(t.op, t.w, ev(0), ev(1))
+	}
+	memo[t.id] = r
+	return r
+}
+
+// Dump renders t as an s-expression up to the given depth (diagnostics).
+func (t *Term) Dump(depth int) string {
+	if t.op == OpConst || t.op == OpSym {
+		return t.String()
+	}
+	if depth == 0 {
+		return "..."
+	}
+	name := opNames[t.op]
+	switch t.op {
+	case OpZExt:
+		name = fmt.Sprintf("zext%d", t.w)
+	case OpSExt:
+		name = fmt.Sprintf("sext%d", t.w)
+	case OpExtract:
+		name = fmt.Sprintf("extract%d", t.w)
+	}
+	var sb strings.Builder
+	sb.WriteString("(" + name)
+	for _, a := range t.args {
+		sb.WriteString(" " + a.Dump(depth-1))
+	}
+	sb.WriteString(")")
+	return sb.String()
 }
